@@ -30,16 +30,18 @@ SUM = 365
 SUML = 366
 A_MON = 0          # absolute day number of the reference Monday 2000-01-03
 MAXDIM = 31
+MAXW = 53
 
 
 def set_mode(mode):
     """Select the calendar mode the spec functions describe (native side)."""
-    global MODE, DIM, DIML, SUM, SUML, A_MON, MAXDIM
+    global MODE, DIM, DIML, SUM, SUML, A_MON, MAXDIM, MAXW
     MODE = mode
     DIM, DIML = TABLES[mode]
     SUM = sum(DIM)
     SUML = sum(DIML)
     MAXDIM = max(DIM)
+    MAXW = -(-SUML // 7)       # most weeks a week year of this calendar can have
     A_MON = dby(2000) + 3
 
 
